@@ -46,7 +46,7 @@ CHECKS.update({
          "Every IvState type and both buffered CFB types: BFS over {feed, export->fresh instance} with <= 3 cuts; every history continues exactly like the uninterrupted run, the exported value equals the reference public chaining value, encryptor and decryptor export equal values; every byte cut point of buffered CFB.",
          "Trusted: reference chaining values; canonical key = (offset, exported value, probe).", "3/C09"),
  "C10": ("merged BFS of the seek/position machine from initial and post-seek states against a random-access reference",
-         "Seven seekable ciphers x configurations x IVs: BFS to depth 3/4 over seeks of five integer types to a boundary alphabet of positions and data calls of boundary lengths; bytes, try_current_pos of all five types, get_block_pos, remaining_blocks and the counter blocks fed to E are checked on every transition.",
+         "Seven seekable ciphers x configurations x IVs: BFS to depth 3 (quick) / 4 (thorough) over seeks of five integer types to a boundary alphabet of positions and data calls of boundary lengths; bytes, try_current_pos of all five types, get_block_pos, remaining_blocks and the counter blocks fed to E are checked on every transition.",
          "Trusted: reference position kept as (block, byte); tolerated try_current_pos window documented.", "3/C10"),
  "C11": ("merged BFS of the exhaustion machine from states within W blocks of the limit, with a counter-reuse monitor",
          "Same machine started at limit-k (core positioning + from_core, empty and partially consumed buffer) and fresh; requests ending before/at/after the limit, seeks around and past the end, try_apply_keystream_partial; success iff the request fits, failures leave data and position untouched, remaining_blocks exact, no counter block used for two indices. Three findings that originate in the cipher dependency are listed in known_findings.json.",
